@@ -1,17 +1,22 @@
-"""C02 - Map, Dic, HashMap, HashDic and Set behave as finite maps and sets (spec/FiniteMap.tla, spec/HashChains.tla)."""
+"""C02 - Map, Dic, HashMap, HashDic and Set behave as finite maps and sets (spec/FiniteMap.tla, FiniteMapExt.tla,
+HashChains.tla, MapBuild.tla)."""
 import concurrent.futures as cf
 import os
+import re
 import subprocess
 import time
 import vlib
 
 META = {
-    "engine": "FiniteMap.tla, HashChains.tla, Trace_FiniteMap.tla",
+    "engine": "FiniteMap.tla, FiniteMapExt.tla, HashChains.tla, MapBuild.tla, Trace_FiniteMap.tla",
     "technique": "TLC exhaustive enumeration of FiniteMap.tla histories (shared handles, clones, merges, set algebra) replayed "
                  "transition-by-transition on Map/Dic/HashMap/HashDic/Set (16 key/value/table-size instantiations, colliding "
                  "keys) under ASan+LSan; implementation-shaped HashChains.tla (chains, rehash, lock-step ==) model-checked as a "
-                 "refinement of FiniteMap and replayed on tiny tables; recorded random executions (thousands of entries, all "
-                 "growth thresholds) validated against the same spec actions",
+                 "refinement of FiniteMap and replayed on tiny tables; FiniteMapExt.tla (Enumerator objects stepped while other "
+                 "handles change, value assignment through enumerators and find(), size-argument and list constructors, m = m) "
+                 "and MapBuild.tla (every key/value list -> map / key set / join text, split as the opposite of join) enumerated "
+                 "and replayed the same way; recorded random executions (thousands of entries, all growth thresholds, enumerator "
+                 "sessions) validated against the same spec actions",
     "design_ref": "DESIGN.md section 6, C02",
     "level_text": "TLC enumerates every history of public map/set calls through 3 handles (set, operator[], remove, clear, add/merge, "
                   "clone, dup, copy/assign/drop of handles, default construction, union/intersection/difference) up to the configured "
@@ -20,15 +25,31 @@ META = {
                   "transcribes the hash table (bins, chains, 7/8 rehash x8, dup, ==) and TLC checks that it implements FiniteMap. Every "
                   "transition of both state graphs is replayed on the real containers under ASan/LSan and the projected state (sorted "
                   "entries, length, has/find/get/const [] for every key of the universe, keys()/array(), reference count, pairwise "
-                  "==/!=/contains/containsAny, live value instances) is compared with what TLC emitted. Recorded executions of the real "
-                  "containers are accepted by TLC as behaviours of the same actions.",
-    "level_note": "Bounded (constants in spec/MC_FiniteMap_*.cfg, MC_FiniteSet_*.cfg, MC_HashChains*.cfg); beyond them only the recorded "
+                  "==/!=/contains/containsAny, live value instances; the foreach2 and range-based for loops against the explicit "
+                  "enumerator) is compared with what TLC emitted. FiniteMapExt.tla adds Enumerator objects (begin, step, *e = v, "
+                  "early end) interleaved with every call that leaves the enumerated key set alone - in particular changes of the "
+                  "source while its clone is enumerated and vice versa - with the properties 'visited, current and remaining keys "
+                  "partition the key set', 'ascending for Map/Dic, any not yet visited key for hash containers' (TLC explores every "
+                  "choice, the replayer follows the one the real table makes), 'a step reads the latest value'; containers "
+                  "constructed with a size argument (0, 1, 3, ...: no observable effect; set algebra and == between tables of "
+                  "different sizes), from key/value lists, assignment of an object to itself, writes through find(). MapBuild.tla "
+                  "enumerates every key/value list up to the bound: the map it denotes (last value of a repeated key) must come out "
+                  "of the braced-list, chained-pair, converting and size-argument constructors, its key set out of Set's list / "
+                  "Array constructors and array(), and Dic::join / String::split(sep1, sep2) must be inverse on it (the round trip "
+                  "is an invariant of the specification's own split). HashChains.tla also transcribes HashMap(n) (nextPoT) and "
+                  "operator= on the object itself. Recorded executions of the real containers are accepted by TLC as behaviours "
+                  "of the same actions.",
+    "level_note": "Bounded (constants in spec/MC_FiniteMap_*.cfg, MC_FiniteSet_*.cfg, MC_FiniteMapExt_*.cfg, MC_FiniteSetExt_*.cfg, "
+                  "MC_HashChains*.cfg, MC_MapBuild_*.cfg); beyond them only the recorded "
                   "random executions apply. Enumeration order of hash containers is left unspecified (compared as a multiset). Open "
                   "findings GrowWhileShared (Map/Dic) and RehashWhileShared (HashMap/HashDic/Set) are excluded by hazard predicates "
                   "evaluated on the real rc()/cap()/table size; TLC exhibits RehashWhileShared, the chain-head removal and the "
-                  "lock-step == as counterexamples of HashChains.tla with the corresponding switch on. Self-assignment of one and "
-                  "the same HashMap object (m = m clears it) is outside the property and not generated. Memory errors and leaks are "
-                  "observed by ASan/LSan on the generated executions, not decided by the model.",
+                  "lock-step ==, HashMap(0) and the clearing m = m as counterexamples of HashChains.tla with the corresponding switch "
+                  "on. Changing the key set of a container while an enumerator is open on it, texts given to split(sep1, sep2) that "
+                  "are not joins (pieces without separator, empty keys, separators inside keys or values) and negative size "
+                  "arguments are not documented and left unconstrained (never generated). A hash-container enumeration order that "
+                  "no instantiation produces is counted (enum_orders), not a failure. Memory errors and leaks are observed by "
+                  "ASan/LSan on the generated executions, not decided by the model.",
 }
 
 # expected-counterexample runs of the implementation-shaped model: switch -> invariants one of which TLC must report
@@ -36,15 +57,32 @@ EXPECT = [
     ("MC_HashChains_headbug", ("Refines", "LengthOK", "LookupOK"), "remove() of a chain head drops the rest of the chain"),
     ("MC_HashChains_eqlockstep", ("EqualOK",), "operator== walking both enumerations depends on insertion order"),
     ("MC_HashChains_allowsharedrehash", ("Refines", "LengthOK", "LookupOK", "SharingOK", "EqualOK"), "rehash() while the table is shared"),
+    ("MC_HashChains_zerobins", ("BinsOK",), "HashMap(0) builds a table without bins"),
+    ("MC_HashChains_selfassign", ("Refines", "LengthOK", "LookupOK", "EqualOK"), "operator= on the object itself clears it"),
 ]
 
 
 def _model_and_replay(ctx, rep, spec, cfg, label, workers, jobs, ignore=(), args=()):
-    # small batches: when a batch leaks, vrun re-runs it one case per process to attribute the leak
+    # small batches: when a batch leaks, vrun re-runs it one case per process to attribute the leak; the per-case time limit
+    # (a hang is a failure) is 2 minutes instead of vrun's 20 s: on a machine shared with dozens of other runs a forked
+    # batch has been seen starved for longer than that
     cases = os.path.join(ctx.tmp, "%s.cases" % cfg)
-    ctx.model(spec, cfg, emit_to=cases, timeout=ctx.pick(900, 3000), xmx="6g", workers=workers, ignore_cov=ignore)
-    m = ctx.replay(rep, cases, label=label, timeout=ctx.pick(900, 5400), jobs=jobs, args=list(args) + ["--batch", ctx.pick("300", "1000")] + ([] if ctx.quick else ["--all-kinds"]))
+    # TLC reports the Next of these modules as a single action, so -coverage (which slows TLC down several times) says
+    # nothing about vacuity: for the configurations of the wider surface the generated calls are counted on the emitted cases
+    counted = "Ext" in cfg or "_sizes_" in cfg or "MapBuild" in cfg
+    ctx.model(spec, cfg, emit_to=cases, timeout=ctx.pick(900, 3000), xmx="6g", workers=workers, ignore_cov=ignore, must_cover=not counted)
+    ops, enum_cases = set(), 0
+    if counted:
+        with open(cases, "rb") as f:
+            for ln in f:
+                found = set(re.findall(rb'"op":"([A-Za-z]+)"', ln[:ln.find(b'"exp"')]))
+                ops |= found
+                if b"estep" in found or b"ebegin" in found:
+                    enum_cases += 1
+        ops = {o.decode() for o in ops}
+    m = ctx.replay(rep, cases, label=label, timeout=ctx.pick(900, 5400), jobs=jobs, args=list(args) + ["--batch", ctx.pick("300", "1000"), "--case-timeout-ms", "120000"] + ([] if ctx.quick else ["--all-kinds"]))
     os.unlink(cases)
+    m["ops"], m["enum_cases"] = ops, enum_cases
     return m
 
 
@@ -69,10 +107,23 @@ def run(ctx):
         [("HashChains", "MC_HashChains_%s" % tier, "R/HashChains", (), ()),
          ("HashChains", "MC_HashChainsSet_%s" % tier, "R/HashChains-set", ("Index",), ())],
     ]
+    # the wider surface: enumerators / size and list constructors / m = m (FiniteMapExt), tables built with HashMap(n)
+    # (HashChains, a second spelling of the module name: see above), lists -> containers and texts (MapBuild)
+    ext_a = [("MC_FiniteMapExt", "MC_FiniteMapExt_%s" % tier, "R/FiniteMapExt", (), ()),
+             ("MC_FiniteMapExt", "MC_FiniteMapExt_enum_%s" % tier, "R/FiniteMapExt-enum", (), ())]
+    ext_b = [("MC_FiniteMapExt.tla", "MC_FiniteSetExt_%s" % tier, "R/FiniteSetExt", (), ()),
+             ("HashChains.tla" if ctx.quick else "HashChains", "MC_HashChains_sizes_%s" % tier, "R/HashChains-sizes", (), ()),
+             ("MC_MapBuild", "MC_MapBuild_%s" % tier, "R/MapBuild", (), ())]
+    if ctx.quick:
+        groups += [ext_a, ext_b]     # two more pipelines side by side: the quick tier is bounded by wall time
+    else:
+        groups[1] += ext_a           # the thorough tier is bounded by memory (several JVMs of 6 GB + 16 ASan replayers holding
+        groups[2] += ext_b           # their case files): the new configurations queue up behind the shorter two groups
     if not ctx.quick:
         groups[2].append(("HashChains", "MC_HashChains2_thorough", "R/HashChains-nb2", (), ()))
         groups[1].append(("FiniteMap.tla", "MC_FiniteMap_wide", "R/FiniteMap-wide", maponly, ()))
     shape = {"cases": 0, "differs": 0}
+    orders = {"cases": 0, "other": 0}
 
     def group(g):
         for spec, cfg, label, ignore, args in g:
@@ -81,6 +132,19 @@ def run(ctx):
             if spec.startswith("HashChains"):
                 shape["cases"] += m["executed"] + m["skipped"].get("ShapeDiffers", 0)
                 shape["differs"] += m["skipped"].get("ShapeDiffers", 0)
+            if "Ext" in cfg:
+                # vacuity of the new actions is measured on the emitted cases (TLC reports Next as one action)
+                need = {"ebegin", "estep", "eend", "list"} | (set() if "_enum_" in cfg else {"new", "assignSelf"}) | \
+                       (set() if "Set" in cfg else {"eassign", "poke"})
+                missing = sorted(need - m["ops"])
+                if missing:
+                    raise vlib.HarnessError("%s: vacuous run, calls never generated: %s" % (cfg, missing))
+                orders["cases"] += m["enum_cases"]
+                orders["other"] += m["skipped"].get("OtherOrder", 0)
+                if m["enum_cases"] - m["skipped"].get("OtherOrder", 0) <= 0:
+                    raise vlib.HarnessError("%s: no enumerator history was followed to its end" % cfg)
+            if "_sizes_" in cfg and not {"new", "assignSelf"} <= m["ops"]:
+                raise vlib.HarnessError("%s: vacuous run, no HashMap(n) / m = m generated" % cfg)
 
     def expected():
         for cfg, invs, what in EXPECT:
@@ -108,6 +172,10 @@ def run(ctx):
         for f in futs:
             f.result()
     ctx.known_hits.pop("ShapeDiffers", None)
+    ctx.known_hits.pop("OtherOrder", None)
+    ctx.extra["enum_orders"] = ("%d of %d replayed histories with an enumerator step were followed to their end by at least one container "
+                                "instantiation; the others choose a visiting order of a hash container that no instantiation produces"
+                                % (orders["cases"] - orders["other"], orders["cases"]))
     ctx.extra["hashchains_shape"] = ("%d of %d replayed HashChains transitions reproduce the transcribed table size and enumeration "
                                      "order exactly" % (shape["cases"] - shape["differs"], shape["cases"]))
     ctx.exhaustive = True
@@ -120,6 +188,10 @@ def run(ctx):
         "key ids are mapped monotonically onto concrete keys chosen to collide (1,257,513,2049; \"Ab\",\"BA\",\"C \"), to share long "
         "prefixes, and onto integer extremes; hash tables start with 256 bins (default) or 1, 2, 4, 16 bins (HashMap(n))",
         "a HashMap has no merge call: 'add' is executed as an enumeration of the source with assignment into the target",
+        "a HashMap/HashDic has no list constructor: 'list' is executed as a new container filled with set()/operator[] in list order; "
+        "for Map/Dic a size argument is executed as reserve(n) on a new map",
+        "while an enumerator is open, only calls that leave the key set of the enumerated block and the enumerated handle object alone "
+        "are generated / recorded (the library documents nothing about modifying a container that is being enumerated)",
     ]
 
 
